@@ -91,16 +91,30 @@ def check(repo: Repo, rep: Report) -> None:
     for g, s, k in TC.downstream_sites(w, ("on_next",)):
         gt = TC.guards_text(s)
         ok = False
+        by_equality = False
+        o = g.owner(vals)
+        inits = [n.value for n in (o.direct_nodes() if o is not None else ()) if isinstance(n, (ast.Assign, ast.AnnAssign)) and n.value is not None
+                 and u(n.targets[0] if isinstance(n, ast.Assign) else n.target) == vals]
         for e, p in s.ctx.guards:
-            if isinstance(e, ast.Compare) and len(e.ops) == 1 and isinstance(e.ops[0], (ast.NotIn, ast.In)) and isinstance(e.left, ast.Name) \
-                    and isinstance(e.comparators[0], ast.Name) and e.comparators[0].id == vals and p == isinstance(e.ops[0], ast.NotIn):
-                sentinel = e.left.id
-                o = g.owner(vals)
-                inits = [n.value for n in (o.direct_nodes() if o is not None else ()) if isinstance(n, (ast.Assign, ast.AnnAssign)) and n.value is not None
-                         and u(n.targets[0] if isinstance(n, ast.Assign) else n.target) == vals]
-                ok = bool(inits) and all(mentions(v, {sentinel}) for v in inits)
+            # `not any(v is MARK for v in values)` / `all(v is not MARK for v in values)`: identity with the marker the list is initialised with
+            if isinstance(e, ast.Call) and call_name(e) in ("any", "all") and len(e.args) == 1 and isinstance(e.args[0], (ast.GeneratorExp, ast.ListComp)) \
+                    and len(e.args[0].generators) == 1 and u(e.args[0].generators[0].iter) == vals and not e.args[0].generators[0].ifs:
+                elt, var = e.args[0].elt, u(e.args[0].generators[0].target)
+                if isinstance(elt, ast.Compare) and len(elt.ops) == 1 and isinstance(elt.ops[0], (ast.Is, ast.IsNot)) and isinstance(elt.comparators[0], ast.Name) \
+                        and u(elt.left) == var:
+                    sentinel = elt.comparators[0].id
+                    want_any = isinstance(elt.ops[0], ast.Is)
+                    if (call_name(e) == "any") == want_any and p == (not want_any):
+                        ok = bool(inits) and all(mentions(v, {sentinel}) for v in inits)
+            if isinstance(e, ast.Compare) and len(e.ops) == 1 and isinstance(e.ops[0], (ast.NotIn, ast.In, ast.Eq, ast.NotEq)) \
+                    and any(isinstance(x, ast.Name) and x.id == vals for x in ast.walk(e)):
+                by_equality = True
         rep.ob("G1-gating", g, f"with_latest_from emits under {gt}", ok,
-               "with_latest_from emits before every other source has a value (or decides by truthiness of the values)")
+               ("with_latest_from decides 'every other source has a value' with `in` / `==` on the stored elements: the comparison runs the "
+                "element's own __eq__, so an element that compares equal to anything (mock.ANY, a wildcard object) is taken for the "
+                "no-value marker and the operator never emits" if by_equality else
+                "with_latest_from emits before every other source has a value (or decides by truthiness / equality of the values "
+                "instead of identity with the marker the list is initialised with)"))
     # the other sources are subscribed before the primary: a primary that emits inside subscribe() must already find their
     # latest values (every child subscription site precedes the primary's)
     from ..model import is_subscribe_call as _isc
